@@ -35,8 +35,9 @@ def parseScript (s : String) : List Item :=
   if s == "-" then [] else (s.splitOn ";").filterMap parseItem
 
 def evStr (hasHedge : Bool) (e : Exec.Event) : String :=
+  let nm := match e.seen with | some o => s!"{e.name}[{o.val},{errStr o.err}]" | none => e.name
   if e.name.startsWith "cb[" then s!"{e.name}@{e.pos}"
-  else s!"{e.name}@{e.pos}:{e.att}/{if hasHedge then "*" else toString e.exe}"
+  else s!"{nm}@{e.pos}:{e.att}/{if hasHedge then "*" else toString e.exe}"
 
 def worldStr (w : World) : String :=
   let brs := w.breakers.map fun (_, b) =>
@@ -83,7 +84,7 @@ def step (d : St) (toks : List String) : St × Option String :=
     | none => (d, some "diverged")
     | some (res, r) =>
       let verdict := if res.successAll then "S" else "F"
-      let nontriv := r.log.length > 3 || res.err.isSome
+      let nontriv := r.log.length > 4 || res.err.isSome
       ({ d with w := r.w, runs := d.runs + 1, events := d.events + r.log.length, nontrivial := d.nontrivial + (if nontriv then 1 else 0),
                 maxStack := max d.maxStack d.ps.length },
        some (s!"res {res.val} {errStr res.err} verdict={verdict} inv={r.inv} att={r.attempts} exe={r.execs} ret={r.retries} hed={r.hedges} " ++
